@@ -99,7 +99,8 @@ class Rec(TransmissionObserverInterface):
         self.events.append(("voice_ended", None, voice_header, list(blocks)))
 
 
-def one_config(acc, cfg):
+def one_config(acc, cfg, shared=None):
+    """shared: (terminal, recorder) to re-use instead of fresh ones"""
     rate, confirmed, length, k, cc, fill = cfg[:6]
     sapname = cfg[6] if len(cfg) > 6 else "ShortData"
     mode = cfg[7] if len(cfg) > 7 else "one_by_one"
@@ -138,9 +139,13 @@ def one_config(acc, cfg):
         acc.violation("wrong_number_of_bursts", {**case, "bursts": len(raw), "expected": k + 1 + n})
     if any(len(r) != 33 for r in raw):
         acc.violation("burst_not_33_bytes", case)
-    rec = Rec()
-    SEAMS.tok = 0
-    term = Terminal(dmrid=1, observers=[rec])
+    if shared is None:
+        rec = Rec()
+        SEAMS.tok = 0
+        term = Terminal(dmrid=1, observers=[rec])
+    else:
+        term, rec = shared
+        rec.events = []
     try:
         with contextlib.redirect_stdout(io.StringIO()):
             if mode == "one_by_one":
@@ -223,6 +228,39 @@ def worker(cfgs):
             one_config(acc, cfg)
         except Exception as e:  # noqa: BLE001  (checker-side failure must not hide a verdict)
             acc.violation("exception_in_pipeline:" + exc_sig(e), {"cfg": list(cfg)}, repr(e))
+            acc.case()
+    return acc
+
+
+def reuse_pool():
+    """configurations for the back-to-back runs: every rate and mode, lengths at and around block boundaries, with and without
+    preambles, two feeding modes, two service access points"""
+    pool = []
+    for ri, (r, c) in enumerate([(r, c) for r in ("r12", "r34", "r1") for c in (False, True)]):
+        opb, opl = OCTETS[(r, c)]
+        pool.append((r, c, 0, 0, 1, "counter", "ShortData", "one_by_one"))
+        pool.append((r, c, opl + opb + 1, 2, 1, "seed", "ShortData", "parse_all_then_feed" if ri % 2 else "reused_receive_buffer"))
+        pool.append((r, c, 3 * opb + opl, 1, 15, "ff", "UDP_IP_compression" if ri % 2 else "ShortData", "one_by_one"))
+    return pool
+
+
+def worker_pairs(pairs):
+    acc = Acc()
+    for a, b in pairs:
+        try:
+            rec = Rec()
+            SEAMS.tok = 0
+            term = Terminal(dmrid=1, observers=[rec])
+            first = Acc()
+            one_config(first, a, shared=(term, rec))
+            second = Acc()
+            one_config(second, b, shared=(term, rec))
+            for sig, v in second.viol.items():
+                acc.violation("second_transmission_on_the_same_terminal:" + sig, {"first": list(a), "second": list(b), "detail": (v[1] or [None])[0]},
+                              "a transmission received on a terminal that has already received another one: " + (v[2] or ""))
+            acc.case(nontrivial=True, calls=first.calls + second.calls, outcome=(a[0], b[0], a[1], b[1]), sample={"first": list(a), "second": list(b)} if len(acc.samples) < 1 else None)
+        except Exception as e:  # noqa: BLE001
+            acc.violation("exception_in_pipeline:" + exc_sig(e), {"first": list(a), "second": list(b)}, repr(e))
             acc.case()
     return acc
 
@@ -310,7 +348,17 @@ def run(only=None):
     for acc in par.pmap(worker, [c for c in chunks if c]):
         s.merge(acc)
     s.done()
-    rep.bounds = {"max_payload_length": max_len, "configurations": len(cfgs)}
+    # state carried by the receiving objects from one transmission to the next
+    pool = reuse_pool()
+    pairs = [(a, b) for a in pool for b in pool]
+    s = rep.sub("two_transmissions_back_to_back_on_one_terminal",
+                f"all {len(pool)}^2 ordered pairs over {len(pool)} configurations (every rate and mode, block-boundary lengths, 0..2 preambles, three feeding modes) "
+                "received one after the other by the same Terminal object: the second transmission meets every obligation of the statement as if it were the first")
+    s.declared = len(pairs)
+    for acc in par.pmap(worker_pairs, par.split_list(pairs, 64)):
+        s.merge(acc)
+    s.done()
+    rep.bounds = {"max_payload_length": max_len, "configurations": len(cfgs), "back_to_back_pairs": len(pairs)}
     return rep.finish()
 
 
